@@ -7,6 +7,7 @@ from typing import Any, ClassVar, SupportsIndex
 
 from tree_sitter import Node
 
+from nix_manipulator.expressions.points import point_row
 from nix_manipulator.expressions.comment import Comment
 from nix_manipulator.expressions.expression import (
     NixExpression,
@@ -40,7 +41,7 @@ def process_list(node: Node):
         """Allow inline comments only when they remain on the same line."""
         return (
             prev is not None
-            and comment_node.start_point.row == prev.end_point.row
+            and point_row(comment_node.start_point) == point_row(prev.end_point)
             and bool(items)
         )
 
